@@ -2,7 +2,7 @@ from dataclasses import dataclass
 
 from mypy.nodes import AssignmentStmt, DelStmt, IndexExpr, LambdaExpr, MypyFile, SliceExpr
 
-from refurb.checks.common import get_mypy_type, is_same_type, stringify
+from refurb.checks.common import get_mypy_type, is_same_type, stringify_operand
 from refurb.error import Error
 from refurb.visitor import TraverserVisitor
 
@@ -57,7 +57,7 @@ class SliceExprVisitor(TraverserVisitor):
 
         match node.index:
             case SliceExpr(begin_index=None, end_index=None, stride=None):
-                base = stringify(node.base)
+                base = stringify_operand(node.base, ".")
                 msg = f"Replace `{base}[:]` with `{base}.copy()`"
 
                 self.errors.append(ErrorInfo.from_node(node, msg))
